@@ -49,20 +49,23 @@ CHECKS = {
              'equal advance(start, value) for all values; ' + _B,
              'tokenizer start positions (true_pos) are bounded only except in the f-string / illegal-name helpers; node delegation '
              'is proved over ghost spos/epos; split_lines(keepends=False) contract trusted from re.split (validated exhaustively in C15)'),
-    'C04': C('4 C04', 'VCs of the position update and leaf walks of the diff parser over a ghost leaf numbering (z3); run-time contract '
+    'C04': C('4 C04', 'VCs of the position update, end-line computation and leaf walks of the diff parser over a ghost leaf numbering (z3); run-time contract '
              'over enumerated edit histories (bounded); oracle = batch parser',
              'D: _update_positions shifts exactly the leaves from the first copied leaf up to last_leaf, writes only `line`, raises '
-             'iff last_leaf is among them; _get_previous/_next_leaf_if_indentation, _skip_dedent_error_leaves return the nearest '
-             'non-indentation leaf; B: every single edit, capped pairs and seeded longer histories over base texts: dump, code, '
-             'parents and used names equal a fresh parse after every step',
+             'iff last_leaf is among them; _skip_dedent_error_leaves returns the nearest non-DEDENT leaf (found whenever one exists), '
+             '_ends_with_newline, _get_last_line (exact), _get_previous/_next_leaf_if_indentation; B: every single edit, capped pairs and '
+             'seeded longer histories over base texts: dump, code, parents and used names equal a fresh parse after every step',
              'partly applicable: no inductive invariant for the copy conditions within reach; the core is bounded only'),
-    'C05': C('4 C05', 'exact table obligations (T) on all grammars + bounded conformance monitor against an independent EBNF reading',
-             'T: automaton language = rule right-hand side, plan chains, LL(1) facts for all rules/states; B: every non-error '
-             'node is a sentence of its rule (modulo documented conventions), errors only where a statement/block is expected',
-             'stack invariant I_stack of the engine not discharged'),
-    'C06': C('4 C06', 'exact LL(1) table obligations (T) + VC of _token_to_transition + generated derivations covering every automaton arc (bounded)',
-             'T: FIRST-exact transitions, plan chains, no nullable rule, no FOLLOW conflict on all 9 tables; D: token->label; '
-             'B: one derivation per arc, strict parse returns the collapsed derivation, recovering parse identical',
+    'C05': C('4 C05', 'exact table obligations (T) on all grammars + VCs of the recovery cut-back (z3) + bounded conformance monitor against an independent EBNF reading',
+             'T: automaton language = rule right-hand side, plan chains, LL(1) facts for all rules/states; D: error recovery cuts the stack '
+             'back to a file_input / suite entry (or the root) and puts the removed nodes, as one error node, into that entry '
+             '(current_suite, _stack_removal, Parser.error_recovery); B: every non-error node is a sentence of its rule (modulo documented '
+             'conventions), errors only where a statement/block is expected',
+             'stack invariant I_stack of the engine (entries spell runs of their rule automata) not discharged'),
+    'C06': C('4 C06', 'exact LL(1) table obligations (T) + VCs of _token_to_transition and convert_leaf + generated derivations covering every automaton arc (bounded)',
+             'T: FIRST-exact transitions, plan chains, no nullable rule, no FOLLOW conflict on all 9 tables; D: token->label; every token '
+             'becomes a leaf of the kind of its token type (keyword iff reserved NAME); B: one derivation per arc, strict parse returns '
+             'the collapsed derivation with the same leaf kinds, recovering parse identical',
              'M-LL1 paper lemma; I_stack not discharged'),
     'C07': C('4 C07', 'VCs of what strict mode raises (exception-object postconditions), frame/effect obligations over the real call graph, '
              'VCs of _recovery_tokenize and the parser constructors; relational bounded contract',
@@ -79,8 +82,9 @@ CHECKS = {
              'graph algorithms themselves not proved (certificate route); M-SUBSET'),
     'C09': C('4 C09', 'RegLan obligations on the live patterns (z3) + VCs of PrefixPart and of the f-string / illegal-name helpers; bounded token-stream contract',
              'D: dispatch facts of the pseudo-token pattern (9 versions), part invariants and totality of the prefix re-lexer '
-             '(refuted: known finding), PrefixPart positions, _close_fstring_if_necessary (prefix purity + tiling), '
-             '_find_fstring_string, _split_illegal_unicode_name; ' + _B,
+             '(refuted: known finding), PrefixPart positions, split_prefix tiles the prefix (match totality assumed = the known '
+             'finding), dedent_if_necessary keeps the indentation stack strictly increasing (one DEDENT per level), FStringNode '
+             'bookkeeping, _close_fstring_if_necessary (prefix purity + tiling), _find_fstring_string, _split_illegal_unicode_name; ' + _B,
              'tokenize_lines main loop (tiling/balance/positions) bounded only'),
     'C10': C('4 C10', 'RegLan equivalence of lexeme classes with the running CPython\'s tokenize regex grammar; bounded stream comparison with CPython 3.12 only',
              'D: Number/Comment/ASCII-name languages equal, operators covered, maximal munch, string prefixes, 9 versions; '
@@ -91,13 +95,13 @@ CHECKS = {
              '__eq__ identity, get_leaf_for_position and its binary-search closure (ghost fge); '
              + _B + ' (every position of the text incl. outside borders)',
              'get_name_of_position bounded only; wf(tree) is a precondition'),
-    'C13': C('4 C13', 'effect obligations (tree unchanged, no shared writes), class-table obligations on the rule registry, VCs of issue construction; bounded contract of iter_errors',
-             'D: no function reachable from iter_errors stores to a tree field or shared state; T: all 31 registered rule classes '
-             'carry code 901/903 with the matching message prefix, call-site signature; VCs: _add_syntax_error, '
-             '_add_indentation_error satisfy add_issue\'s precondition, Issue.__init__; ' + _B + ' (codes, ranges, one per line, '
-             'coverage of error leaves/nodes, determinism)',
-             'totality of the rule classes on recovered trees is bounded only; known findings: f-string error node line, crashes on '
-             'some recovered trees'),
+    'C13': C('4 C13', 'effect obligations (tree unchanged, no shared writes), class-table obligations on the rule registry, VCs of issue construction and of the per-line table; bounded contract of iter_errors',
+             'D: no function reachable from iter_errors stores to a tree field or shared state; ErrorFinder.add_issue keeps the first issue '
+             'of a line and touches no other line; visit_leaf files an issue for the line of every (non-indentation) error leaf; '
+             '_add_syntax_error / _add_indentation_error, Issue.__init__; T: all 31 registered rule classes carry code 901/903 with the '
+             'matching message prefix, call-site signature; ' + _B + ' (codes, ranges, one per line, coverage of error leaves/nodes, determinism)',
+             'totality of the rule classes on recovered trees is bounded only; contracts are for an object that is exactly an ErrorFinder; '
+             'known findings: f-string error node line, crashes on some recovered trees'),
     'C15': C('4 C15', 'RegLan equivalence of the coding-cookie search with PEP 263 (tokenize.cookie_re/blank_re); exhaustive bounded check of split_lines and decoding',
              'D: parso finds a declaration exactly in the CR-free sources where CPython does; B: split_lines on all strings <=4/5 '
              'over 13 separator characters, decoding vs tokenize.detect_encoding on all <=4/5 atom byte strings',
